@@ -102,6 +102,15 @@ func faults(base *dt.File) []fault {
 		}
 		add("dup-interaction", t, "this method has already been defined in the resource")
 	}
+	// duplicate JSON-RPC method
+	for _, p := range findAll(base.Nodes, kw("Method")) {
+		t := base.Clone()
+		parent := nodeAt(t, p[:len(p)-1])
+		c := nodeAt(t, p).Clone()
+		clearIDs(c)
+		parent.Kids = append(parent.Kids, mark(c))
+		add("dup-rpc-method", t, "this method has already been defined in the resource")
+	}
 	// duplicate macro
 	{
 		t := base.Clone()
@@ -184,6 +193,17 @@ func faults(base *dt.File) []fault {
 		}
 		add("second-Request-body", t, "the directive has already been defined")
 	}
+	// a second Body child inside one Request
+	for _, p := range findAll(base.Nodes, kw("Request")) {
+		if r := nodeAt(base, p); hasKid(r, "Body") {
+			t := base.Clone()
+			rr := nodeAt(t, p)
+			c := kid(rr, "Body").Clone()
+			clearIDs(c)
+			rr.Kids = append(rr.Kids, mark(c))
+			add("second-Body-child", t, "the directive has already been defined")
+		}
+	}
 	// undefined type / tag / macro
 	for _, p := range findAll(base.Nodes, func(n *dt.Node) bool { return dt.IsMethod(n.Kw) }) {
 		t := base.Clone()
@@ -248,6 +268,19 @@ func faults(base *dt.File) []fault {
 		m2 := nodeAt(t2, p)
 		m2.Kids = append(m2.Kids, mark(dt.N("298")).Add(dt.N("Headers").WithBody(dt.SchemaBody, []string{`{"h": "1"}`})))
 		add("missing-response-body", t2, "undefined response body for resource")
+		// ... and as the first of several responses
+		t3 := base.Clone()
+		m3 := nodeAt(t3, p)
+		first := len(m3.Kids)
+		for i, k := range m3.Kids {
+			if k.Kind() == "CODE" {
+				first = i
+				break
+			}
+		}
+		bodyless := mark(dt.N("297")).Add(dt.N("Headers").WithBody(dt.SchemaBody, []string{`{"h": "1"}`}))
+		m3.Kids = append(m3.Kids[:first:first], append([]*dt.Node{bodyless, dt.N("296", "any")}, m3.Kids[first:]...)...)
+		add("missing-response-body-not-last", t3, "undefined response body for resource")
 	}
 	{
 		t := base.Clone()
